@@ -1,5 +1,8 @@
 # C18 — server discovery yields each wanted server exactly once.
-from lib import vf
+import os, socket, subprocess, threading, time
+from lib import vf, srv
+
+EXTRA_BINS = ("dtail", "dcat")
 
 ID = "C18"
 PROP_FILE = "Props/C18.v"
@@ -58,12 +61,64 @@ def generate(rng, tier):
         else:
             rx = rng.choice(REGEXES) if rng.random() < 0.8 else b""
             cases.append({"kind": "module", "entries": [e.hex() for e in es], "regex": rx.hex()})
+    # connections attempted by the real clients (dcat: one attempt per entry; dtail: reconnects after a dropped connection)
+    cases.append({"kind": "attempts", "n": 0, "tool": "dcat", "listed": 3, "seconds": 4})
+    cases.append({"kind": "attempts", "n": 1, "tool": "dtail", "listed": 2, "seconds": 6})
     return cases
 
 
+def _attempts(c):
+    """Black box: a real client against TCP listeners that drop every connection; which addresses does it contact
+    (first attempts and - for the retrying dtail - reconnects)?"""
+    env = srv.Env(os.path.join(vf.scratch(), "c18att%d" % c["n"]))
+    socks, counts = [], {}
+    stop = {"flag": False}
+
+    def serve(s, name):
+        s.settimeout(0.2)
+        while not stop["flag"]:
+            try:
+                conn, _ = s.accept()
+            except OSError:
+                continue
+            counts[name] = counts.get(name, 0) + 1
+            conn.close()
+    names = ["listed%d" % k for k in range(c["listed"])] + ["default_port"]
+    ports = {}
+    for name in names:
+        s = socket.socket(); s.setsockopt(socket.SOL_SOCKET, socket.SO_REUSEADDR, 1); s.bind(("127.0.0.1", 0)); s.listen(64)
+        ports[name] = s.getsockname()[1]
+        socks.append(s)
+        threading.Thread(target=serve, args=(s, name), daemon=True).start()
+    hosts = ["127.0.0.1", "localhost"]
+    servers = ",".join("%s:%d" % (hosts[k % 2], ports["listed%d" % k]) for k in range(c["listed"]))
+    open(os.path.join(env.dir, "f.log"), "w").write("x\n")
+    cmd = [os.path.join(srv.BIN, c["tool"]), "--cfg", "none", "--noColor", "--servers", servers, "--port", str(ports["default_port"]),
+           "--trustAllHosts", "--key", env.key, "--user", "root", "--files", os.path.join(env.dir, "f.log")]
+    p = subprocess.Popen(cmd, stdin=subprocess.DEVNULL, stdout=subprocess.DEVNULL, stderr=subprocess.DEVNULL, env=env.client_env(), cwd=env.dir)
+    try:
+        p.wait(c["seconds"])
+    except subprocess.TimeoutExpired:
+        p.kill(); p.wait()
+    stop["flag"] = True
+    time.sleep(0.3)
+    for s in socks:
+        s.close()
+    return {"counts": counts, "names": names}
+
+
 def run_impl(cases, tier):
-    res, infos = vf.harness_parallel("disc", cases)
-    return res
+    disc = [i for i, c in enumerate(cases) if c["kind"] != "attempts"]
+    res, infos = vf.harness_parallel("disc", [cases[i] for i in disc])
+    obs = [None] * len(cases)
+    for i, r in zip(disc, res):
+        obs[i] = r
+    att = [i for i, c in enumerate(cases) if c["kind"] == "attempts"]
+    from concurrent.futures import ThreadPoolExecutor
+    with ThreadPoolExecutor(max(1, len(att))) as ex:
+        for i, r in zip(att, ex.map(lambda i: _attempts(cases[i]), att)):
+            obs[i] = r
+    return obs
 
 
 def _wanted(case, ob):
@@ -101,6 +156,16 @@ def judge(cases, obs, tier):
             continue
         if "skip" in o:
             continue
+        if c["kind"] == "attempts":
+            cnt = o["counts"]
+            if cnt.get("default_port"):
+                oracle[i] = "%s contacted an address that is not in the list (host:<default port>) %d times; listed entries were contacted %s" % (
+                    c["tool"], cnt["default_port"], {k: v for k, v in cnt.items() if k != "default_port"})
+            elif any(not cnt.get("listed%d" % k) for k in range(c["listed"])):
+                oracle[i] = "%s never contacted some listed entries: %s" % (c["tool"], cnt)
+            elif c["tool"] == "dcat" and any(cnt.get("listed%d" % k) != 1 for k in range(c["listed"])):
+                oracle[i] = "dcat contacted an entry more than once: %s" % cnt
+            continue
         got = [bytes.fromhex(s) for s in o["servers"]]
         want = _wanted(c, o)
         if len(set(got)) != len(got):
@@ -120,6 +185,8 @@ def judge(cases, obs, tier):
 
 
 def nontrivial(c):
+    if c["kind"] == "attempts":
+        return True
     if c["kind"] == "module":
         es = c["entries"]
     elif c["kind"] == "comma":
@@ -130,6 +197,8 @@ def nontrivial(c):
 
 
 def sample(c, o):
+    if c["kind"] == "attempts":
+        return {"kind": "attempts", "tool": c["tool"], "listed": c["listed"], "counts": (o or {}).get("counts")}
     d = {"kind": c["kind"]}
     if "server" in c:
         d["server"] = bytes.fromhex(c["server"])[:80].decode("latin1")
